@@ -32,7 +32,8 @@ EXPLANATION = ("Real TraceAnalysis.get_queue_length_time_series / get_memory_bw_
                "active at t (zero-length copy = one unit), >= 0; the written file = source events (unchanged, same "
                "order) followed by one counter event per series row at ts + min_ts. Non-trivial path = admits a queue "
                "length of 2 (or two copies active at once).")
-ASSUMPTIONS = ["WF host thread, unique correlation ids per side, kernel.ts >= launch.ts", "integer ts/dur in [0,2^40], "
+ASSUMPTIONS = ["WF host thread, unique correlation ids per side (kernel.ts >= launch.ts is NOT assumed: it is the "
+               "hypothesis of the never-negative clause only)", "integer ts/dur in [0,2^40], "
                "bandwidth an exact non-negative real (float rounding outside the claim)",
                "write_raw_trace and JSON reading stubbed in the symbolic run; natively the written gzip file is read back"]
 STUBS = ["hta.common.trace_parser.parse_trace_dict", "Trace._validate_trace_files", "Trace.write_raw_trace", "plotly",
@@ -113,8 +114,9 @@ def run(ctx):
     P = [{**p, "lts": ctx.val(p["lts"]), "ldur": ctx.val(p["ldur"]), "kts": ctx.val(p["kts"])} for p in pairs]
     C = [{**c, "ts": ctx.val(c["ts"]), "dur": ctx.val(c["dur"]), "bw": ctx.val(c["bw"])} for c in copies]
     assume_nested_or_disjoint(ctx, [(ctx.val(a), ctx.val(a) + ctx.val(b)) for a, b in host_spans])
-    for p in P:
-        ctx.assume(p["kts"] >= p["lts"])
+    # the value clause holds for any interleaving; "never negative" is promised only when no activity starts before
+    # its launch call
+    causal = sand(*[p["kts"] >= p["lts"] for p in P]) if P else True
     ta = ctx.open(events)
     ranks = list(range(nranks))
     min_ts = ta.t.min_ts
@@ -152,7 +154,7 @@ def run(ctx):
                         cnt = cnt + site(p["lts"] - min_ts <= t, 1, 0) - site(p["kts"] - min_ts <= t, 1, 0)
                     later_same = sor(*[ts[k] == t for k in rows[a + 1:]]) if rows[a + 1:] else False
                     ctx.prove(sor(later_same, q[j] == cnt), "queue-value-after-instant", {"stream": s, "row": a})
-                    ctx.prove(q[j] >= 0, "queue-never-negative", {"stream": s, "row": a})
+                    ctx.prove(sor(snot(causal), q[j] >= 0), "queue-never-negative", {"stream": s, "row": a})
                     if ctx.mode == "sym":
                         nontriv = sor(nontriv, q[j] >= 2)
                 ctx.prove(q[rows[-1]] == 0, "queue-ends-at-zero", {"stream": s})
